@@ -1784,3 +1784,45 @@ variant('b-listener-event-never-cleared', ['C17'], RC,
         "                    self._connect_request_event.clear()\n                    await self._close(reconnect=True)",
         "                    await self._close(reconnect=True)", None, kind='twin',
         note='the finally clause still clears the event: behaviour preserved')
+
+# round 8: C19.e parsed entries are objects of their parse
+AC = 'rsocket/extensions/authentication_content.py'
+variant_multi('b-auth-registry-of-instances', ['C19'], [
+    (AC, """        self.authentication = authentication_item_factory(authentication_type)()
+""", """        self.authentication = authentication_item_factory(authentication_type)
+"""),
+    (AC, """    WellKnownAuthenticationTypes.SIMPLE.value.name: AuthenticationSimple,
+    WellKnownAuthenticationTypes.BEARER.value.name: AuthenticationBearer,""",
+     """    WellKnownAuthenticationTypes.SIMPLE.value.name: AuthenticationSimple(),
+    WellKnownAuthenticationTypes.BEARER.value.name: AuthenticationBearer(),""")],
+    ('C19.e', 'AuthenticationContent.parse'))
+variant_multi('b-composite-item-memoised-per-type', ['C19'], [
+    ('rsocket/extensions/composite_metadata.py', """            item = metadata_item_factory(metadata_encoding)()
+""", """            item = _items.setdefault(metadata_encoding, metadata_item_factory(metadata_encoding)())
+"""),
+    ('rsocket/extensions/composite_metadata.py', "_default = object()\n", "_default = object()\n_items = {}\n")],
+    ('C19.e', 'CompositeMetadata.parse'))
+variant('t-auth-entry-class-in-a-local', ['C19'], AC,
+        """        self.authentication = authentication_item_factory(authentication_type)()
+""", """        item_class = authentication_item_factory(authentication_type)
+        self.authentication = item_class()
+""", kind='twin')
+
+# round 8: C15.e the watchdog alone decides that the peer is dead
+variant('b-liveness-predicate-reads-the-clock', ['C15'], 'rsocket/rsocket_client.py',
+        "        return self._is_server_alive\n",
+        """        return (self._is_server_alive
+                and datetime.now() - self._last_server_keepalive <= self._max_lifetime_period)
+""", ('C15.e', 'RSocketClient.is_server_alive'))
+variant('b-liveness-flag-cleared-by-the-emitter', ['C15'], 'rsocket/rsocket_client.py',
+        """    def _update_last_keepalive(self):
+        self._last_server_keepalive = datetime.now()
+""", """    def _update_last_keepalive(self):
+        self._is_server_alive = self._last_server_keepalive is not None
+        self._last_server_keepalive = datetime.now()
+""", ('C15.e', 'store to _is_server_alive'))
+variant('t-liveness-predicate-through-a-local', ['C15'], 'rsocket/rsocket_client.py',
+        "        return self._is_server_alive\n",
+        """        alive = bool(self._is_server_alive)
+        return alive
+""", kind='twin')
